@@ -13,6 +13,7 @@ one_prop() {
   for d in /verif/seeded/harmless/$prop-*; do
     [ -d "$d" ] || continue
     name=$(basename $d); wt=/tmp/reharm_$name
+    if [ -f $d/EXPECT ]; then echo "harmless $name: skipped (a violation is expected: see $d/EXPECT)"; continue; fi
     git -C /repo worktree add -q --detach $wt HEAD || continue
     if git -C $wt apply $d/patch.diff 2>/dev/null || git -C $wt apply -3 $d/patch.diff 2>/dev/null; then
       out=$(VERIF_REPO=$wt /verif/check $prop quick 2>&1 | grep -v "^WARNING" | grep -v "^KNOWN")
